@@ -193,14 +193,14 @@ theorem dedupAdj_head (a : Inst) (t : List Inst) : ∃ t', dedupAdj (a :: t) = a
     · exact ih
     · exact ⟨_, rfl⟩
 
-theorem dedupAdj_strict : ∀ l : List Inst, l.Pairwise (fun a b => a.abs ≤ b.abs) →
-    (dedupAdj l).Pairwise (fun a b => a.abs < b.abs)
+theorem dedupAdj_strict : ∀ l : List Inst, l.Pairwise (fun a b => a.key ≤ b.key) →
+    (dedupAdj l).Pairwise (fun a b => a.key < b.key)
   | [], _ => by simp [dedupAdj]
   | [a], _ => by simp [dedupAdj]
   | a :: b :: t, h => by
     rw [dedupAdj]
-    have hbt : (b :: t).Pairwise (fun a b => a.abs ≤ b.abs) := (pairwise_cons.1 h).2
-    have hat : (a :: t).Pairwise (fun a b => a.abs ≤ b.abs) :=
+    have hbt : (b :: t).Pairwise (fun a b => a.key ≤ b.key) := (pairwise_cons.1 h).2
+    have hat : (a :: t).Pairwise (fun a b => a.key ≤ b.key) :=
       h.sublist ((Sublist.refl t).cons b |>.cons₂ a)
     split
     · exact dedupAdj_strict (a :: t) hat
@@ -209,22 +209,22 @@ theorem dedupAdj_strict : ∀ l : List Inst, l.Pairwise (fun a b => a.abs ≤ b.
       refine ⟨?_, dedupAdj_strict (b :: t) hbt⟩
       intro x hx
       have hx' : x ∈ b :: t := (dedupAdj_sublist (b :: t)).subset hx
-      have hab : a.abs ≤ b.abs := (pairwise_cons.1 h).1 b (by simp)
-      have hbx : b.abs ≤ x.abs := by
+      have hab : a.key ≤ b.key := (pairwise_cons.1 h).1 b (by simp)
+      have hbx : b.key ≤ x.key := by
         rcases mem_cons.1 hx' with rfl | hxt
         · exact Int.le_refl _
         · exact (pairwise_cons.1 hbt).1 x hxt
       omega
 termination_by l => l.length
 
-theorem dedupAdj_abs : ∀ (l : List Inst) (v : Int), v ∈ (dedupAdj l).map (·.abs) ↔ v ∈ l.map (·.abs)
+theorem dedupAdj_key : ∀ (l : List Inst) (v : Int), v ∈ (dedupAdj l).map (·.key) ↔ v ∈ l.map (·.key)
   | [], v => by simp [dedupAdj]
   | [a], v => by simp [dedupAdj]
   | a :: b :: t, v => by
     rw [dedupAdj]
     split
     · rename_i he
-      rw [dedupAdj_abs (a :: t) v]
+      rw [dedupAdj_key (a :: t) v]
       simp only [map_cons, mem_cons]
       constructor
       · rintro (h | h)
@@ -235,7 +235,7 @@ theorem dedupAdj_abs : ∀ (l : List Inst) (v : Int), v ∈ (dedupAdj l).map (·
         · exact Or.inl (by omega)
         · exact Or.inr h
     · simp only [map_cons, mem_cons]
-      have := dedupAdj_abs (b :: t) v
+      have := dedupAdj_key (b :: t) v
       simp only [map_cons, mem_cons] at this
       rw [this]
 termination_by l => l.length
